@@ -60,10 +60,24 @@ def log2up(n):
     return k
 
 
+DIM_LIMIT = 125          # dimension_t = int8_t: dim_max + 2 <= 127
+
+
 def py_dispatch(n, dim, mod):
-    d = min(dim, n - 2)
+    d = min(dim, n - 2, DIM_LIMIT)
     s = log2up(n) * (d + 2) + log2up(mod - 1)
     return 64 if s <= 64 else 128 if s <= 128 else 129
+
+
+def py_accepts(n, dim, mod):
+    """replica of the budget guards: does ripser accept (n, dim_max, modulus) or refuse it with an exception?
+    cns-128: the table must fit 128 bits and leave room for the coefficient (dim_max is first clamped to n-2 and to 125)"""
+    import math
+    k = min(dim, n - 2, DIM_LIMIT) + 2
+    if py_dispatch(n, dim, mod) != 129:
+        return True
+    C = math.comb(n, min(n // 2, k))
+    return C < 2 ** 128 and 128 - log2up(C + 1) >= log2up(mod - 1)
 
 
 # ------------------------------------------------------------------------------------------------ metric helpers
@@ -245,6 +259,13 @@ def generate(rng, tier):
                 c = json.load(open(os.path.join(cdir, f)))
                 if "line" in c:
                     continue                     # leaf lines: see leaf_lines
+                if "edges" in c:                 # compact form of a sparse case
+                    E = {(max(a, b), min(a, b)): k for (a, b, k) in c.pop("edges")}
+                    c["keys"] = [E.get(ij, -1) for ij in tri(c["n"])]
+                    c.setdefault("nsimp", c["n"] + len(E))
+                c["refuse"] = c.get("refuse", False) or (c["kind"] == "sparse" and not py_accepts(c["n"], c["dim"], c["mod"]))
+                if c["refuse"]:
+                    c["proved"] = False
                 c["origin"] = "corpus"
                 cases.append(c)
 
@@ -344,6 +365,22 @@ def generate(rng, tier):
         c["proved"] = False
         c["origin"] = "sparse-big"
         cases.append(c)
+    # ---- the limits of the budget: beyond them ripser must refuse (exception), never answer something else
+    for (n, dim, mod) in [(129, 127, 2), (129, 126, 2), (129, 125, 2), (130, 128, 2), (131, 129, 2), (131, 125, 2), (131, 125, 3), (132, 125, 2),
+                          (132, 64, 2), (133, 63, 2), (150, 148, 2), (200, INTMAX, 2), (200, 66, 5), (200, 40, 5), (300, INTMAX, 3), (130, 100, 3),
+                          (130, 100, 5), (140, 62, 7), (258, INTMAX, 2), (258, 256, 2), (300, 254, 2), (300, 257, 2), (129, INTMAX, 2), (131, INTMAX, 2),
+                          (128, 126, 2), (128, 125, 2), (127, 125, 2), (127, INTMAX, 3)]:
+        m = rng.choice([4, 5, 6])
+        E = {}
+        vs = rng.sample(range(n), m)
+        for k in range(m):
+            a, b = vs[k], vs[(k + 1) % m]
+            E[(max(a, b), min(a, b))] = rng.randint(1, 2)
+        keys = [E.get((i, j), -1) for (i, j) in tri(n)]
+        c = dict(kind="sparse", n=n, keys=keys, thr=None, dim=dim, mod=mod, sq=0, nsimp=n + m, second=False, origin="budget-limit")
+        c["refuse"] = not py_accepts(n, dim, mod)
+        c["proved"] = not c["refuse"]
+        cases.append(c)
     # ---- moduli that must be refused
     for mod in BADMOD:
         keys = gen_dense(rng, 4)
@@ -440,7 +477,7 @@ def judge(c, out, res=None):
     """-> list of (kind, what, expected, observed)"""
     V = []
     n, dim, mod = c["n"], c["dim"], c["mod"]
-    dmc = min(dim, n - 2)
+    dmc = min(dim, n - 2, DIM_LIMIT)
     exp_dims = ",".join(str(d) for d in range(0, max(dmc, 0) + 1))
     bad = c.get("badmod")
     # the dispatcher
@@ -482,6 +519,13 @@ def judge(c, out, res=None):
         if ans.startswith("CRASH") or ans.startswith("DIED"):
             V.append((("hang:" if "HANG" in ans else "crash:") + tag, "ripser %s on form %s (n=%d dim=%d thr=%s p=%d)"
                       % ("did not return within 240 s" if "HANG" in ans else "crashed (%s)" % ans[:20], tag, n, dim, c["thr"], mod), "an answer", ans[:60]))
+            continue
+        if c.get("refuse"):
+            if not ans.startswith("EXC"):
+                V.append(("out-of-budget-accepted", "n=%d dim_max=%d p=%d is beyond the encodable budget but ripser answered (form %s)" % (n, dim, mod, tag),
+                          "exception", ans[:80]))
+            elif res is not None:
+                res.count("refused out-of-budget input:" + ans)
             continue
         if bad:
             if not ans.startswith("EXC"):
@@ -576,7 +620,7 @@ def check(ctx, replay=None):
         res.count("n:%s" % (c["n"] if c["n"] <= 9 else "10-40" if c["n"] <= 40 else ">40"))
         res.count("threshold:" + ("none" if c["thr"] is None else "below-min" if c["thr"] < min([k for k in c["keys"] if k >= 0] + [10**9]) else "value"))
         res.count("modulus:%d" % c["mod"])
-        res.count("oracle:" + ("certified" if c.get("proved") else "second-route-only" if not c.get("badmod") else "none"))
+        res.count("oracle:" + ("certified" if c.get("proved") else "second-route-only" if not (c.get("badmod") or c.get("refuse")) else "none (refusal expected)"))
         if c.get("proved"):
             res.traces_validated += 1
             res.count("simplices(certified):%s" % ("<=30" if c["nsimp"] <= 30 else "31-80" if c["nsimp"] <= 80 else "81-%d" % CAP))
@@ -636,7 +680,7 @@ def check(ctx, replay=None):
     res.samples = [strip(c) for c in cases if c.get("origin") in ("dense", "sparse", "points")][:6]
     res.samples = [{k: (v if k != "keys" or len(v) <= 40 else "<%d keys>" % len(v)) for k, v in s.items()} for s in res.samples]
     res.notes.append("certified-oracle complexes are capped at %d simplices (O(N^4) verified checker); %d cases were above the cap and were compared with the "
-                     "Rips_complex+Simplex_tree+Persistent_cohomology route only" % (CAP, sum(1 for c in cases if not c.get("proved") and not c.get("badmod"))))
+                     "Rips_complex+Simplex_tree+Persistent_cohomology route only" % (CAP, sum(1 for c in cases if not c.get("proved") and not c.get("badmod") and not c.get("refuse"))))
     return core.finish(ctx, None, res, TRUSTED, ASSUMPTIONS, LEVEL,
                        "cd /verif/coq && make -f Makefile.coq Properties_C11.vo  (coqc 8.16.1; Print Assumptions after every theorem)",
                        correspondence_name=CORRESPONDENCE)
